@@ -277,6 +277,6 @@ for _p in ('C01', 'C02', 'C03', 'C04', 'C06', 'C07', 'C08', 'C09', 'C10', 'C11',
 NOTES = ('Technique family: static analysis only. Every verdict is computed from /repo\'s current source on every run (content-addressed '
          'fact cache under /verif/build/cache is keyed by the SHA-256 of every source/header/CMake file and of the extractor). Exit 0 = all '
          'obligations discharged; exit 1 = VIOLATION lines; exit 2 = analysis broken (anchor vanished, extractor failed, instance floor not met). '
-         'Nineteen genuine defects found by the rules on the pinned tree were repaired with unguarded fix: commits in /repo and are listed as '
+         'Eighteen genuine defects found by the rules on the pinned tree were repaired with unguarded fix: commits in /repo and are listed as '
          '"fixed:" in known_findings.json; three genuine violations of C02 that are not small-and-safe to repair are listed there as "known" '
          '(the C02 check prints a KNOWN-FINDING line for each and exits 0; any other violation of the same clauses is still reported). No hooks are needed (guard TEXEL_VERIF is unused).')
